@@ -127,6 +127,13 @@ class FamilyInit(InitMode):
         if ss and isinstance(ss[0], (ast.Assign, ast.AnnAssign)):
             tgt = ss[0].targets[0] if isinstance(ss[0], ast.Assign) else ss[0].target
             if isinstance(tgt, ast.Attribute) and isinstance(tgt.value, ast.Name) and tgt.value.id == "self" and tgt.attr in self.fam.skip_fields:
+                # only one form is left out: {t: getattr(self, name) for t, name in self.<TABLE>.items()} -- the bound
+                # methods the class-level table names, keyed by type; using it is translated as a dispatch on the type
+                import re
+                mt = re.fullmatch(r"\{t: getattr\(self, name\) for (?:t, name|\(t, name\)) in self\.(\w+)\.items\(\)\}", ast.unparse(ss[0].value))
+                if not mt or mt.group(1) not in getattr(self.fam, "tables", {}):
+                    bad(ss[0], "a field the unit leaves out must be a table of bound methods built from a class-level table")
+                self.fam.handler_tables[tgt.attr] = mt.group(1)
                 return self.stmts(ss[1:], env)
             if isinstance(ss[0], ast.AnnAssign) and isinstance(tgt, ast.Attribute) and isinstance(tgt.value, ast.Name) and tgt.value.id == "self" \
                     and tgt.attr in self.fam.field_types and ss[0].value is not None:
@@ -327,6 +334,12 @@ class FamilyMethod(MethodMode):
             return k(f"(negb (seq_len {self.read_field('data')} =? 0))")
         return super().cond(e, env, k)
 
+    def call_self(self, m, a, ret, r, ex, x, k):
+        if m in getattr(self, "open_rec", ()):  # a call back into the dispatcher this method is a handler of
+            return (f"let '({r}, self) := rec__{m} {' '.join(a)} self in\nmatch {r} with\n| Exn {ex} => {self.on_exn(ex)}\n"
+                    f"| Val {x} =>\n{k('tt' if ret == 'none' else x, ret)}\nend")
+        return super().call_self(m, a, ret, r, ex, x, k)
+
     def stmts(self, ss, env):
         if self.fam.userlist and ss and isinstance(ss[0], ast.Expr) and isinstance(ss[0].value, ast.Call) and ast.unparse(ss[0].value.func) == "self.clear" \
                 and not ss[0].value.args and not ss[0].value.keywords:
@@ -367,7 +380,8 @@ def add_family(tr: Translator, root: str, nodes: list[ast.ClassDef], userlist: b
     fam.inline = set(spec.get("inline", ()))
     fam.param_types = spec.get("param_types", {})
     fam.yield_types = spec.get("yield_types", {})
-    fam.dispatch = spec.get("dispatch", {})
+    fam.return_types = spec.get("return_types", {})
+    fam.handler_tables = {}
     fam.field_types = {f: ann_type(ast.parse(a, mode="eval").body, tr.classes) for f, a in spec.get("field_types", {}).items()}
     info = ClassInfo(root)
     info.family = fam
@@ -423,7 +437,8 @@ def add_family(tr: Translator, root: str, nodes: list[ast.ClassDef], userlist: b
             def ptype(p):
                 ov = fam.param_types.get(f"{m}.{p.arg}")
                 return ann_type(ast.parse(ov, mode="eval").body if ov else p.annotation, tr.classes)
-            rt = ann_type(ast.parse(fam.yield_types[m], mode="eval").body, tr.classes) if m in fam.yield_types else ann_type(d.returns, tr.classes)
+            rt = ann_type(ast.parse(fam.yield_types[m], mode="eval").body, tr.classes) if m in fam.yield_types else \
+                ann_type(ast.parse(fam.return_types[m], mode="eval").body if m in fam.return_types else d.returns, tr.classes)
             if m in fam.yield_types:
                 rt = ("gen", rt)
             elif any(isinstance(y, (ast.Yield, ast.YieldFrom)) for st in d.body for y in ast.walk(st)) and isinstance(rt, tuple) and rt[0] == "iter":
@@ -435,6 +450,10 @@ def add_family(tr: Translator, root: str, nodes: list[ast.ClassDef], userlist: b
         sigs[m] = sig
         info.methods[m] = sig
     fam.attr_names = attr_names
+    for m in fam.inline:  # an inlined method that only reads the messages it is given
+        d = fam.resolve(fam.order[0], m)[1]
+        if not any(py2v.param_is_written(p, d.body, t[1]) for p, t in sigs[m][0] if isinstance(t, tuple) and t[0] == "pb"):
+            py2v.READER_METHODS.add(m)
     # ---- pass 1: the fields (union over the constructors)
     fam.attr_types = {}
     ctor_defs = {}
@@ -496,31 +515,161 @@ def add_family(tr: Translator, root: str, nodes: list[ast.ClassDef], userlist: b
                 tr.ctor_params[c] = params
     # callees first
     done: set[str] = set()
+    disp = {m: d for m in names if (d := dispatch_of(tr, fam, m)) is not None}
+
+    def callees_of(m):
+        out = set()
+        if m in disp:
+            return {h for _, h in disp[m][1]}
+        for c in fam.order:
+            r = fam.resolve(c, m)
+            if r:
+                out |= {x.func.attr for x in ast.walk(r[1]) if isinstance(x, ast.Call) and isinstance(x.func, ast.Attribute)
+                        and isinstance(x.func.value, ast.Name) and x.func.value.id == "self" and x.func.attr in names}
+                out |= {i for x in ast.walk(r[1]) if isinstance(x, ast.Call) and isinstance(x.func, ast.Attribute)
+                        and isinstance(x.func.value, ast.Name) and x.func.value.id == "self" and x.func.attr in fam.inline
+                        for i in callees_of(x.func.attr)}
+        return out - set(fam.inline)
+    for m in disp:
+        for _, h in disp[m][1]:
+            if h not in names:
+                bad(None, f"{root}.{m}: the table names {h}, which is not a translated method")
     while len(done) < len(names):
         progressed = False
         for m in names:
             if m in done:
                 continue
-            callees = set()
-            for c in fam.order:
-                r = fam.resolve(c, m)
-                if r:
-                    callees |= {x.func.attr for x in ast.walk(r[1]) if isinstance(x, ast.Call) and isinstance(x.func, ast.Attribute)
-                                and isinstance(x.func.value, ast.Name) and x.func.value.id == "self" and x.func.attr in names}
-            if callees - {m} <= done:
-                emit_method(tr, fam, info, m, sigs[m])
+            if m in fam.inline:
                 done.add(m)
                 progressed = True
+                continue
+            if callees_of(m) - {m} <= done:
+                if m in disp:
+                    emit_dispatch(tr, fam, info, m, sigs[m], disp[m], set())
+                else:
+                    emit_method(tr, fam, info, m, sigs[m])
+                done.add(m)
+                progressed = True
+        if progressed:
+            continue
+        # a dispatcher some of whose handlers call it back: the handlers take the dispatcher as a parameter (rec__),
+        # the dispatcher is a Fixpoint on explicit fuel (Python: the interpreter's recursion limit), and the handlers are
+        # then closed over it
+        for m in disp:
+            if m in done:
+                continue
+            opened = {h for h in callees_of(m) - done if callees_of(h) - done <= {m}}
+            if not (callees_of(m) - done <= opened):
+                continue
+            for h in sorted(opened):
+                emit_method(tr, fam, info, h, sigs[h], open_rec={m: sigs[m]})
+            emit_dispatch(tr, fam, info, m, sigs[m], disp[m], opened)
+            for h in sorted(opened):
+                ps = " ".join(f"({mangle(p)} : {coq_type(t)})" for p, t in sigs[h][0])
+                tr.out.append(f"Definition {root}_{h} {ps} (self : {root}) := {root}_{h}_open {root}_{m} {' '.join(mangle(p) for p, _ in sigs[h][0])} self.")
+            done |= opened | {m}
+            progressed = True
+            break
         if not progressed:
             bad(None, "recursive methods in the family")
 
 
-def emit_method(tr, fam: Family, info, m: str, sig) -> None:
+def dispatch_of(tr, fam, m):
+    """The table-dispatch idiom, or None:
+         h = self.<handlers>.get(type(x)); if h is None: [msg = ..;] raise TypeError(..) [from None]; return h(x)
+    where <handlers> is a field the unit leaves out (checked, in __init__, to be the bound methods a class-level table
+    names).  Gives (parameter, [(type name, method name)])."""
+    if len(fam.order) != 1:
+        return None
+    r = fam.resolve(fam.order[0], m)
+    body = [st for st in r[1].body if not (isinstance(st, ast.Expr) and isinstance(st.value, ast.Constant))]
+    if len(body) != 3 or len(r[1].args.args) != 2:
+        return None
+    x = r[1].args.args[1].arg
+    a, c, ret = body
+    import re
+    mt = isinstance(a, ast.Assign) and len(a.targets) == 1 and isinstance(a.targets[0], ast.Name) and \
+        re.fullmatch(rf"self\.(\w+)\.get\(type\({x}\)\)", ast.unparse(a.value))
+    if not mt or mt.group(1) not in fam.skip_fields:
+        return None
+    h = a.targets[0].id
+    if not (isinstance(c, ast.If) and ast.unparse(c.test) == f"{h} is None" and not c.orelse and isinstance(c.body[-1], ast.Raise)
+            and isinstance(c.body[-1].exc, ast.Call) and ast.unparse(c.body[-1].exc.func) == "TypeError"
+            and all(isinstance(st, ast.Assign) and isinstance(st.value, ast.JoinedStr) for st in c.body[:-1])):
+        bad(c, "dispatch idiom: the miss branch")
+    if not (isinstance(ret, ast.Return) and ast.unparse(ret.value) == f"{h}({x})"):
+        bad(ret, "dispatch idiom: the call")
+    field = mt.group(1)
+    if field not in fam.handler_tables:
+        bad(a, f"{field} is not built in __init__ from a class-level table")
+    table = fam.tables[fam.handler_tables[field]]
+    rows = []
+    for kk, vv in zip(table.keys, table.values):
+        if isinstance(kk, ast.Attribute) and isinstance(kk.value, ast.Name) and kk.value.id == "jelly" and kk.attr in py2v.MESSAGES:
+            kn = kk.attr
+        elif isinstance(kk, ast.Name) and kk.id == "str":
+            kn = "str"
+        else:
+            bad(kk, "handler table key")
+        if not (isinstance(vv, ast.Constant) and isinstance(vv.value, str)):
+            bad(vv, "handler table value")
+        rows.append((kn, vv.value))
+    if len({kn for kn, _ in rows}) != len(rows):
+        bad(table, "handler table with a repeated key")
+    return x, rows
+
+
+def emit_dispatch(tr, fam, info, m, sig, disp, opened) -> None:
+    """type(x) looked up in the table; the handler called with x.  With `opened` non-empty the dispatcher is the Fixpoint
+    the opened handlers call back (fuel: one more than the nesting depth of x always suffices)."""
+    params, ret = sig
+    root = fam.root
+    x, rows = disp
+    if len(params) != 1 or params[0][1] != ("pb", "*"):
+        bad(None, f"{root}.{m}: the unit must declare the dispatched parameter as pbany")
+    xm = mangle(x)
+    py2v.READER_METHODS.add(m)
+    fn = f"{root}_{m}_fuel fuel__" if opened else None
+    code = "(Exn TypeError, self)"
+    for kn, h in reversed(rows):
+        hp, hr = info.methods[h]
+        if h in info.inout or len(hp) != 1:
+            bad(None, f"{root}.{h}: a handler takes the one message and changes only self")
+        pt = hp[0][1]
+        if kn == "str":
+            if pt != "str":
+                bad(None, f"{root}.{h}: handler of str")
+            arg = f"(pb_as_str str_empty {xm})"
+        else:
+            if not (isinstance(pt, tuple) and pt[0] == "pb" and pt[1] in (kn, "*")):
+                bad(None, f"{root}.{h}: handler of {kn} takes {pt}")
+            arg = xm
+        call = f"{root}_{h}_open ({fn}) {arg} self" if h in opened else f"{root}_{h} {arg} self"
+        if hr == ret:
+            br = call
+        elif hr == "none" and isinstance(ret, tuple) and ret[0] == "opt":
+            br = f"(let '(r__, self) := {call} in\nmatch r__ with Exn e__ => (Exn e__, self) | Val _ => (Val None, self) end)"
+        elif isinstance(ret, tuple) and ret[0] == "opt" and py2v.compat(hr, ret[1]):
+            br = f"(let '(r__, self) := {call} in\nmatch r__ with Exn e__ => (Exn e__, self) | Val v__ => (Val (Some v__), self) end)"
+        else:
+            bad(None, f"{root}.{h} returns {hr}, {m} returns {ret}")
+        code = f'if String.eqb (pb_kind {xm}) "{kn}"%string then {br}\nelse {code}'
+    rt = f"outcome {coq_type(ret)} * {root}"
+    if opened:
+        tr.out.append(f"Fixpoint {root}_{m}_fuel (fuel__ : nat) ({xm} : {coq_type(params[0][1])}) (self : {root}) {{struct fuel__}} : {rt} :=\n"
+                      f"match fuel__ with\n| O => (Exn RecursionError, self)\n| Datatypes.S fuel__ =>\n{code}\nend.")
+        tr.out.append(f"Definition {root}_{m} ({xm} : {coq_type(params[0][1])}) (self : {root}) : {rt} :=\n"
+                      f"{root}_{m}_fuel (Datatypes.S (pb_depth {xm})) {xm} self.")
+    else:
+        tr.out.append(f"Definition {root}_{m} ({xm} : {coq_type(params[0][1])}) (self : {root}) : {rt} :=\n{code}.")
+
+
+def emit_method(tr, fam: Family, info, m: str, sig, open_rec=None) -> None:
     params, ret = sig
     root = fam.root
     defs = [fam.resolve(c, m)[1] for c in fam.order if fam.resolve(c, m)]
     # a message parameter that no implementation writes to (or hands on) is read-only: not an in/out parameter
-    muts = [(p, t) for p, t in params if is_mutable(t) and not (t[0] == "pb" and not any(py2v.param_is_written(p, d.body) for d in defs))]
+    muts = [(p, t) for p, t in params if is_mutable(t) and not (t[0] == "pb" and not any(py2v.param_is_written(p, d.body, t[1]) for d in defs))]
     if not muts:
         py2v.READER_METHODS.add(m)
     if muts:
@@ -544,6 +693,7 @@ def emit_method(tr, fam: Family, info, m: str, sig) -> None:
             key = id(r[1])
             if key not in bodies:
                 mode = FamilyMethod(tr, info, ret, fam, muts)
+                mode.open_rec = open_rec or {}
                 bodies[key] = mode.stmts(r[1].body, dict(env0))
         groups.setdefault(key, []).append(c)
     ps = " ".join(f"({mangle(p)} : {coq_type(t)})" for p, t in params)
@@ -553,6 +703,12 @@ def emit_method(tr, fam: Family, info, m: str, sig) -> None:
         body = f"match {root}_cls_tag self with\n" + "\n".join(
             "| " + " | ".join(fam.tag(c) for c in cs) + f" =>\n{bodies[k]}" for k, cs in groups.items()) + "\nend"
     rt = f"outcome {coq_type(ret)} * {root}" + "".join(f" * {coq_type(t)}" for _, t in muts)
+    if open_rec:
+        if muts or pre:
+            bad(None, f"{root}.{m}: a handler that calls the dispatcher back and changes a message")
+        rps = " ".join(f"(rec__{d} : {' -> '.join(coq_type(t) for _, t in dsig[0])} -> {root} -> outcome {coq_type(dsig[1])} * {root})" for d, dsig in open_rec.items())
+        tr.out.append(f"Definition {root}_{m}_open {rps} {ps} (self : {root}) : {rt} :=\n{body}.")
+        return
     tr.out.append(f"Definition {root}_{m} {ps} (self : {root}) : {rt} :=\n{pre}{body}.")
 
 
